@@ -72,24 +72,27 @@ Example apply_sound_recreate : exists r, payload 4 [pvl "/a/c" "3" 4] [pvl "/a/c
   Forall (fun ord => i_apply_sound_at ord 4 [] [pvd "/a" 2; pvl "/x" "9" 1] [pvl "/a/c" "3" 4] [pvl "/a/c" "3" 4] r [(B "/x", B "9")]) ords6.
 Proof. eexists. split; [vm_compute; reflexivity|all_ords_tac]. Qed.
 (* a delete applied while the committed view is ahead: it no longer holds the child /a/b the applied values hold, and
-   holds a child /a/c (of a later change) they do not.  AddDeleteChildren cascades to /a/c only; recording the tombstone
-   of /a/c AFTER the tombstone of /a removes the latter (applyChangeToConfig drops deleted ancestors of every value it
-   sets, tombstones included), so /a/b stays live in the applied values although the device deleted it.
-   Holds in the order 0 of the updated values, FAILS in the order 1 (Go map order of the loop in reconcileApply). *)
-Example apply_sound_lagging_delete_refuted : exists r, payload 2 [pvl "/a/c" "3" 3] [pvd "/a" 2] = Some r /\
+   holds a child /a/c (of a later change) they do not.  AddDeleteChildren cascades to /a/c only; the tombstone of /a is
+   what covers /a/b in the applied values.  Every order of the recording (finding F-23, repaired: before the repair
+   applyChangeToConfig dropped the deleted ancestors of EVERY value it set, tombstones included, so recording the
+   tombstone of /a/c after the one of /a removed the latter and /a/b stayed live - see [old_function_drops] below). *)
+Example apply_sound_lagging_delete : exists r, payload 2 [pvl "/a/c" "3" 3] [pvd "/a" 2] = Some r /\
   wf_change [pvd "/a" 2] = true /\ wf_applied [pvl "/a/b" "1" 1] = true /\ wf_applied [pvl "/a/c" "3" 3] = true /\
-  i_apply_sound_at 0 2 [] [pvl "/a/b" "1" 1] [pvl "/a/c" "3" 3] [pvd "/a" 2] r [(B "/a/b", B "1")] /\
-  abs_dev_i (dev_apply [(B "/a/b", B "1")] r) = [] /\
-  abs_app_i (loaded overlay nil (record_applied 1 2 [pvl "/a/b" "1" 1] (overlay [] [pvl "/a/b" "1" 1]) [pvl "/a/c" "3" 3] [pvd "/a" 2]))
+  Forall (fun ord => i_apply_sound_at ord 2 [] [pvl "/a/b" "1" 1] [pvl "/a/c" "3" 3] [pvd "/a" 2] r [(B "/a/b", B "1")]) ords6.
+Proof. eexists. split; [vm_compute; reflexivity|]. repeat split; try (vm_compute; reflexivity). all_ords_tac. Qed.
+(* the function before the repair, on the two recorded tombstones in the order [/a; /a/c] *)
+Definition apply_change_to_config_old (m : cmap) (path : str) (v : pv) : cmap :=
+  fst (fold_left (fun '(acc, dropped) a =>
+               match lookup a acc with
+               | Some e => if pv_deleted e then (remove a acc, Some (a, e)) else (acc, dropped)
+               | None => (acc, dropped)
+               end) (ancestors path) (insert path v m, @None (str * pv))).
+Example old_function_drops :
+  live (apply_change_to_config_old (apply_change_to_config_old [pvl "/a/b" "1" 1] (B "/a") (snd (pvd "/a" 2))) (B "/a/c") (snd (pvd "/a/c" 2)))
     = [(B "/a/b", B "1")] /\
-  ~ i_apply_sound_at 1 2 [] [pvl "/a/b" "1" 1] [pvl "/a/c" "3" 3] [pvd "/a" 2] r [(B "/a/b", B "1")].
-Proof.
-  eexists. split; [vm_compute; reflexivity|]. repeat split; try (vm_compute; reflexivity). intros H.
-  assert (Hx : abs_dev_i (dev_apply [(B "/a/b", B "1")] (mkReq [B "/a"] [])) =
-               abs_app_i (loaded overlay nil (record_applied 1 2 [pvl "/a/b" "1" 1] (overlay [] [pvl "/a/b" "1" 1]) [pvl "/a/c" "3" 3] [pvd "/a" 2])))
-    by (apply H; vm_compute; reflexivity).
-  vm_compute in Hx. discriminate Hx.
-Qed.
+  live (fst (apply_change_to_config (fst (apply_change_to_config [pvl "/a/b" "1" 1] (B "/a") (snd (pvd "/a" 2)))) (B "/a/c") (snd (pvd "/a/c" 2))))
+    = [].
+Proof. split; vm_compute; reflexivity. Qed.
 
 (* FAILS outside wf_change: one change deleting /a and setting /a/b.  The request is "delete /a" only (the update is
    pruned as lying beneath the delete, in either order); in half of the Go map orders of the recording (0 and 3 of
@@ -174,7 +177,6 @@ Notation i_ok_reqs := (@ok_reqs cmap cmap req).
 Definition l0 : list Label :=
   [LTarget 1 false; LConnUp 10 1; LChange [(1, x_ch "/a/b" "1")] true false; LChange [(1, x_ch "/c" "2")] true false;
    LChange [(1, x_del "/c")] true false].
-Definition x_oracle1 (a : code) : oracle := mkOracle true true a 0 1.
 (* the device does not answer: change 1 stays APPLYING, every guard of the apply is passed *)
 Definition w_send : Wd := x_run (l0 ++ x_rounds 30 (x_oracle CUnavailable) 10 1 [1; 2; 3]).
 (* everything applied *)
@@ -284,12 +286,14 @@ Proof.
   eexists. split; [vm_compute; reflexivity|]. repeat split; vm_compute; reflexivity.
 Qed.
 
-(** * The protocol-level witness of the lagging delete (candidate genuine defect, Go map order dependent) *)
+(** * The lagging delete at protocol level (finding F-23, repaired): converges in every order *)
 (* /a/b = 1 is applied; the device becomes unreachable; "delete /a" and "/a/c = 3" are committed; the device comes
-   back (term 2, re-push of /a/b = 1); the two changes are applied, the recording loop of reconcileApply in the order
-   [o_order = 1].  All transactions are APPLIED, the configuration is SYNCHRONIZED in its term: the device holds /a/c
-   (= the committed configuration), the applied values say /a/b and /a/c.  After the connection is replaced once more
-   (term 3) the complete re-push RESURRECTS /a/b on the device: device <> committed configuration at quiescence. *)
+   back (term 2, re-push of /a/b = 1); the two changes are applied, the loops of reconcileApply in the Go map order
+   [ord]; then the connection is replaced once more (term 3, complete re-push).  In every order: all transactions
+   APPLIED, configuration SYNCHRONIZED in its term, device = applied values = committed configuration = {/a/c = 3},
+   before and after the last re-push.  (Before the repair the order 1 kept /a/b in the applied values and the last
+   re-push put it back on the device.) *)
+Definition x_oracle_ord (ord : N) : oracle := mkOracle true true COk 0 ord.
 Definition l_lag_a : list Label :=
   [LTarget 1 false; LConnUp 10 1; LChange [(1, x_ch "/a/b" "1")] true false] ++ x_rounds 20 (x_oracle COk) 10 1 [1]
   ++ [LConnDown 10; LRec (CtlConn 10) 9 (x_oracle COk); LRec (CtlMaster 1) 9 (x_oracle COk);
@@ -305,22 +309,19 @@ Definition lag_summary (w : Wd) :=
    map (fun kv => (c_applied (snd kv), c_committed (snd kv), c_state (snd kv), c_term (snd kv), c_aterm (snd kv),
                    abs_app_i (aview overlay (snd kv)), abs_app_i (view overlay (snd kv)))) (w_cfgs w),
    map (fun kv => abs_dev_i (d_state (snd kv))) (w_devs w)).
-Example lagging_delete_refuted :
-  (* order 0: everything agrees *)
-  lag_summary (x_run (l_lag_b (x_oracle COk))) =
-    ([(1, TApplied); (3, TApplied); (2, TApplied)],
-     [(3, 3, CSynchronized, 2, 2, [(B "/a/c", B "3")], [(B "/a/c", B "3")])], [[(B "/a/c", B "3")]]) /\
-  (* order 1: the applied values keep the deleted /a/b *)
-  lag_summary (x_run (l_lag_b (x_oracle1 COk))) =
-    ([(1, TApplied); (3, TApplied); (2, TApplied)],
-     [(3, 3, CSynchronized, 2, 2, [(B "/a/b", B "1"); (B "/a/c", B "3")], [(B "/a/c", B "3")])], [[(B "/a/c", B "3")]]) /\
-  ~ i_agrees (x_run (l_lag_b (x_oracle1 COk))) 1 /\
-  (* ... and the next re-push puts it back on the device *)
-  lag_summary (x_run (l_lag_c (x_oracle1 COk))) =
-    ([(1, TApplied); (3, TApplied); (2, TApplied)],
-     [(3, 3, CSynchronized, 3, 3, [(B "/a/b", B "1"); (B "/a/c", B "3")], [(B "/a/c", B "3")])],
-     [[(B "/a/b", B "1"); (B "/a/c", B "3")]]).
+Example lagging_delete_converges :
+  Forall (fun ord =>
+    lag_summary (x_run (l_lag_b (x_oracle_ord ord))) =
+      ([(1, TApplied); (3, TApplied); (2, TApplied)],
+       [(3, 3, CSynchronized, 2, 2, [(B "/a/c", B "3")], [(B "/a/c", B "3")])], [[(B "/a/c", B "3")]]) /\
+    i_agrees (x_run (l_lag_b (x_oracle_ord ord))) 1 /\
+    lag_summary (x_run (l_lag_c (x_oracle_ord ord))) =
+      ([(1, TApplied); (3, TApplied); (2, TApplied)],
+       [(3, 3, CSynchronized, 3, 3, [(B "/a/c", B "3")], [(B "/a/c", B "3")])], [[(B "/a/c", B "3")]]) /\
+    i_agrees (x_run (l_lag_c (x_oracle_ord ord))) 1) ords6.
 Proof.
-  split; [vm_compute; reflexivity|]. split; [vm_compute; reflexivity|]. split; [|vm_compute; reflexivity].
-  intros (C & HC & Hag). vm_compute in HC. injection HC as <-. vm_compute in Hag. discriminate Hag.
+  repeat (apply List.Forall_cons;
+          [split; [vm_compute; reflexivity|]; split; [eexists; split; vm_compute; reflexivity|];
+           split; [vm_compute; reflexivity|eexists; split; vm_compute; reflexivity]|]).
+  apply List.Forall_nil.
 Qed.
